@@ -278,7 +278,7 @@ impl Check for TailCheck {
         "fault_enumeration"
     }
     fn budget(&self, tier: &str) -> usize {
-        if tier == "thorough" { 6000 } else { 320 }
+        if tier == "thorough" { 12_000 } else { 320 }
     }
     fn gen_case(&self, seed: u64, _idx: usize, tier: &str, avoid: &[String]) -> Case {
         let mut rng = Rng::new(seed, "workload");
